@@ -559,9 +559,13 @@ def check_C10(A: Analysis, tier):
             if o.ret is None:
                 rc.fail(fn, f"except {lab}", f"clean-up branch for {lab} never completes normally", A.p.loc(fn, h))
                 continue
+            in_finally = {norm(c.func).split(".")[-1] for t in func_nodes(fn, ast.Try) if t.finalbody and any(h is x for x in ast.walk(t))
+                          for s_ in t.finalbody for c in ast.walk(s_) if isinstance(c, ast.Call)}
             for want, txt in ((("prim", "RENAME", 0, "PIDREFS"), "rename the pid reference away"),
                               (("call", Q("delete_metadata")), "call delete_metadata(pid)"),
                               (("call", Q("_delete_marked_files")), "call _delete_marked_files")):
+                if want[0] == "call" and want[1].split(".")[-1] in in_finally:
+                    continue
                 if want not in o.ret.done:
                     rc.fail(fn, f"except {lab}", f"clean-up branch for {lab} can return without having to {txt}: the pid stays wedged",
                             A.p.loc(fn, h))
@@ -733,7 +737,7 @@ def check_C11(A: Analysis, tier):
     rules.append(rc)
 
     rd = Rule("C11", "C11.d", "every normal path through delete_object calls delete_metadata(pid) with the format "
-              "omitted (all documents)", floor=4)
+              "omitted (all documents)", floor=2)
     for m in ALL_MODES:
         it = A.api("delete_object", m)
         for c in it.calls:
@@ -801,6 +805,46 @@ def _poly(node, syms):
         a = _poly(node.operand, syms)
         return None if a is None else {k: -v for k, v in a.items()}
     return None
+
+
+def computehash_rule(A, rule):
+    """H(x) must be the digest of exactly the elements of x: _computehash is a pure function of
+    what iterating its argument yields (no file-system access, no length/slice arithmetic)."""
+    ch = A.p.func(Q("_computehash"))
+    sp = ch.node.args.args[1].arg
+    rule.ob()
+    fs_calls = [c for c in ast.walk(ch.node) if isinstance(c, ast.Call) and (norm(c.func).startswith(("os.", "io.", "shutil.", "Path", "open", "Stream", "closing")))]
+    for c in fs_calls:
+        rule.inst(f"_computehash: {norm(c)[:60]}")
+        rule.fail(ch, c, f"_computehash touches the file system / opens something (`{norm(c.func)}`): the hash of an identifier string then depends on "
+                  "what files exist, so pid/format addresses no longer follow H(pid) of the published layout", A.p.loc(ch, c))
+    updates = [c for c in ast.walk(ch.node) if isinstance(c, ast.Call) and isinstance(c.func, ast.Attribute) and c.func.attr == "update"]
+    if not updates:
+        rule.fail(ch, "hash_obj.update(...)", "_computehash no longer feeds its argument to the hash object", A.p.loc(ch, ch.node))
+    for u in updates:
+        rule.ob()
+        rule.inst(f"_computehash: {norm(u)[:70]}")
+        arg = u.args[0] if u.args else None
+        inner = arg
+        if isinstance(inner, ast.Call) and norm(inner.func).endswith("_cast_to_bytes") and inner.args:
+            inner = inner.args[0]
+        if isinstance(inner, ast.Call) and isinstance(inner.func, ast.Attribute) and inner.func.attr == "encode":
+            inner = inner.func.value
+        loops = [l for l in ast.walk(ch.node) if isinstance(l, ast.For) and any(u is x for x in ast.walk(l))]
+        ok = False
+        if isinstance(inner, ast.Name) and inner.id == sp and not loops:
+            ok = True      # the whole argument, encoded once
+        for l in loops:
+            if isinstance(l.target, ast.Name) and isinstance(inner, ast.Name) and inner.id == l.target.id \
+                    and isinstance(l.iter, ast.Name) and l.iter.id == sp:
+                ok = True  # every element yielded by iterating the argument
+        if not ok:
+            rule.fail(ch, u, f"`{norm(u)[:80]}` does not hash exactly the elements of `{sp}` (it is fed a slice, a length-bounded block or something "
+                      "else): two different identifiers can get the same hash, or the same identifier a non-standard one", A.p.loc(ch, u))
+    hexd = [c for c in ast.walk(ch.node) if isinstance(c, ast.Call) and isinstance(c.func, ast.Attribute) and c.func.attr == "hexdigest"]
+    rule.ob()
+    if not hexd:
+        rule.fail(ch, "hexdigest()", "_computehash no longer returns the hex digest", A.p.loc(ch, ch.node))
 
 
 def check_C15(A: Analysis, tier):
@@ -882,6 +926,11 @@ def check_C15(A: Analysis, tier):
     if not add or not any(rem is x for x in ast.walk(add[0].right)):
         rb.fail(sh, comp, "sharded path is not `tokens + [remainder]` in that order", A.p.loc(sh, comp))
     rules.append(rb)
+
+    re5 = Rule("C15", "C15.e", "H is the store algorithm over exactly the UTF-8 elements of the string: _computehash feeds every "
+               "element its argument yields (or the whole encoded argument) to the hash object and nothing else", floor=1)
+    computehash_rule(A, re5)
+    rules.append(re5)
 
     rc = Rule("C15", "C15.c", "cid lists are written one `id + newline` per line by both writers and pid references "
               "hold the bare cid; readers compare stripped lines / the whole content for equality", floor=3)
@@ -1077,6 +1126,11 @@ def check_C18(A: Analysis, tier):
                 else:
                     ra.inst(f"{ev.func.qual}:{ev.line} {ev.prim}[{i}]", nontrivial=any(x in idents for x in subterms(t)))
     rules.append(ra)
+
+    re8 = Rule("C18", "C18.e", "the hash that separates identifiers covers the whole identifier (shared with C15.e): no prefix, "
+               "block or file-dependent hashing in _computehash", floor=1)
+    computehash_rule(A, re8)
+    rules.append(re8)
 
     rb = Rule("C18", "C18.b", "membership in and removal from a cid list compare the identifier with the stripped "
               "whole line for equality", floor=2)
